@@ -53,7 +53,9 @@ def generate(seed, tier, prop):
     fam = rng.choice(["gas", "gas", "water", "water", "heat", "heat"])
     maxj = rng.choice([3, 5, 8]) if not thorough else rng.choice([3, 5, 8, 12])
     big = rng.random() < 0.05
-    program, meta = netgen.gen_program(rng, family=fam, max_junctions=maxj, sorted_labels=True,
+    # a JSON restart sorts every table by index, so only C15 histories need ascending labels
+    sorted_labels = True if prop == "C15" else rng.random() < 0.65
+    program, meta = netgen.gen_program(rng, family=fam, max_junctions=maxj, sorted_labels=sorted_labels,
                                        big_labels=big)
     if prop == "C15" and program["fluid"] == "water" and rng.random() < 0.4:
         # custom fluid (C15's quantifier names custom fluids explicitly): one seeded property class each
@@ -66,6 +68,12 @@ def generate(seed, tier, prop):
                                      ["polynominal", T, visc, 1]]),
             "heat_capacity": rng.choice([["constant", 4180.0, False], ["linear", 0.5, 4000.0]])}}
         program["fluid"] = "custom_liquid"
+    if prop == "C15":
+        if rng.random() < 0.4:
+            program["sector"] = {"gas": "gas", "water": "water", "heat": "heat"}[fam]
+        if rng.random() < 0.4:
+            program["extras"] = [{"table": rng.choice(["source", "mass_storage", "compressor", "pump", "flow_control"]),
+                                  "column": rng.choice(["zone", "owner"]), "dtype": rng.choice(["object", "float32", "int64"])}]
     fault_free = rng.random() < 0.3
     knobs = {
         "numba": rng.random() < 0.5,
@@ -1136,7 +1144,7 @@ def _make_replicas(program, trace):
     return reps
 
 
-TIGHT = {"tol_p": 1e-9, "tol_m": 1e-9, "tol_T": 1e-7, "tol_res": 1e-7}
+TIGHT = {"tol_p": 1e-9, "tol_m": 1e-9, "tol_T": 1e-7, "tol_res": 1e-5}  # (the residual has a round-off floor ~1e-7: accuracy is set by the step tolerances)
 
 
 def _run_replicas(res, replicas, op, live, outcome, mode, solver, oi):
@@ -1180,7 +1188,9 @@ def _run_replicas(res, replicas, op, live, outcome, mode, solver, oi):
             continue
         if out != "ok":
             continue
-        d = netmodel.results_close(ref.net, s.net, rtol=1e-5, atol=1e-8, mask_zero_flow=True)
+        # temperatures of junctions inside a flowless loop are decided by the sign of a round-off flow
+        fl = netmodel.flowless_junctions(ref.net) | netmodel.flowless_junctions(s.net)
+        d = netmodel.results_close(ref.net, s.net, rtol=1e-5, atol=1e-8, mask_zero_flow=True, skip_junction_t=fl)
         if d:
             res.violate("C07", "C07/results-differ:%s-vs-%s@%s" % (ref.name, s.name, mode), ",".join(d)[:400], oi)
         res.oracle_checks += 1
